@@ -40,6 +40,7 @@ def _inst_terms(pool, offsets=(), stage=3):
         for o in offs:
             for t in list(pool):
                 add(t - o)
+                add(o - 1 - t)          # mirrored position (reversed sequences)
     if stage >= 2:
         for t in list(pool):
             add(t + 1)
@@ -52,6 +53,11 @@ def _inst_terms(pool, offsets=(), stage=3):
     return out
 
 
+class _Skolemised:
+    def __init__(self, e):
+        self.e = e
+
+
 class Encoded:
     def __init__(self):
         self.assertions = []
@@ -59,7 +65,30 @@ class Encoded:
         self.weakened = False   # True if some ∀ hypothesis was replaced by finitely many instances
 
 
-def encode(pc, hints, goal, pool, fresh, stage=3):
+def nth_indices(assertions):
+    """index terms of all seq.nth applications in the assertions (used like E-matching triggers)"""
+    out = []
+    seen = set()
+    stack = list(assertions)
+    visited = set()
+    while stack:
+        e = stack.pop()
+        if not z3.is_expr(e) or e.get_id() in visited:
+            continue
+        visited.add(e.get_id())
+        if z3.is_quantifier(e):
+            continue
+        if z3.is_app(e):
+            if e.decl().kind() == z3.Z3_OP_SEQ_NTH:
+                i = e.arg(1)
+                if i.get_id() not in seen and not z3.is_int_value(i):
+                    seen.add(i.get_id())
+                    out.append(i)
+            stack.extend(e.children())
+    return out
+
+
+def encode(pc, hints, goal, pool, fresh, stage=3, extra_terms=()):
     """pc ∧ hints ∧ ¬goal as a list of quantifier-free assertions (+ the full ∀s kept aside)"""
     enc = Encoded()
     pool = list(pool)
@@ -96,11 +125,13 @@ def encode(pc, hints, goal, pool, fresh, stage=3):
                 for hq in hyps:
                     if isinstance(hq, dsl.All):
                         offs.extend([hq.lo, hq.hi])
-                terms = _inst_terms(pool, offs, stage)
+                terms = _inst_terms(list(pool) + list(extra_terms), offs, stage)
             enc.weakened = True
             k = z3.Int('q!' + c.name)
             enc.quantified.append(z3.ForAll([k], z3.Implies(z3.And(c.lo <= k, k < c.hi), _zb(c.f(k)))))
             return z3.And([z3.Implies(z3.And(c.lo <= t, t < c.hi), _zb(c.f(t))) for t in terms])
+        if isinstance(c, _Skolemised):
+            return c.e
         if isinstance(c, dsl.Ex):
             k = fresh(c.name)
             return z3.And(c.lo <= k, k < c.hi, _zb(c.f(k)))
@@ -108,7 +139,22 @@ def encode(pc, hints, goal, pool, fresh, stage=3):
             return z3.Or([hyp_clause(p) for p in c.parts])
         return _zb(c)
 
+    # two passes: existential hypotheses are skolemised first so that their witnesses are in the pool when the
+    # universal hypotheses get instantiated
+    first, second = [], []
     for h in hyps:
+        (second if isinstance(h, dsl.All) else first).append(h)
+
+    def pre_skolem(c):
+        if isinstance(c, dsl.Ex):
+            k = fresh(c.name)
+            pool.append(k)
+            return _Skolemised(z3.And(c.lo <= k, k < c.hi, _zb(c.f(k))))
+        if isinstance(c, dsl.AnyOf):
+            return dsl.AnyOf([pre_skolem(p) for p in c.parts])
+        return c
+    first = [pre_skolem(h) for h in first]
+    for h in first + second:
         enc.assertions.append(hyp_clause(h))
     # unfold defined predicates at their occurrences:  P(t) ==> body(t)
     if dsl.DEFS:
@@ -247,18 +293,52 @@ def check_cvc5(solver, timeout_s):
         os.unlink(path)
 
 
+class Have:
+    """intermediate assertion (Dafny's `assert`): proved first, under the same path condition and without the
+    other hints, and only then used as an extra hypothesis.  A `Have` that cannot be proved is dropped."""
+    def __init__(self, formula, name='have'):
+        self.formula = formula
+        self.name = name
+
+
+def _resolve_haves(ctx, ob, z3_timeout_ms):
+    out = []
+    for h in ob.hints:
+        if isinstance(h, Have):
+            from .ctx import Obligation
+            sub = Obligation(ob.name + '.' + h.name, ob.npc, h.formula, [x for x in out], 'have')
+            r = discharge(ctx, sub, max(2000, (z3_timeout_ms or Z3_TIMEOUT_MS) // 2), use_cvc5=False)
+            if os.environ.get('PYVC_TRACE'):
+                print('      [have] %s -> %s' % (sub.name, r), flush=True)
+            if r == 'unsat':
+                out.append(h.formula)
+        else:
+            out.append(h)
+    return out
+
+
 def discharge(ctx, ob, z3_timeout_ms=None, use_cvc5=True):
     """sets ob.result in {'unsat','sat','unknown'}; ob.model (z3 model) when a candidate exists;
     ob.genuine = True when `sat` was obtained without weakening any hypothesis"""
     z3_timeout_ms = z3_timeout_ms or Z3_TIMEOUT_MS
     t0 = time.time()
+    if any(isinstance(h, Have) for h in ob.hints):
+        ob.hints = _resolve_haves(ctx, ob, z3_timeout_ms)
     nfresh0 = ctx.nfresh
+    extra = []
     for stage in (0, 1, 2, 3):
         ctx.nfresh = nfresh0          # same skolem names at every stage
-        enc = encode(ctx.pc[:ob.npc], ob.hints, ob.goal, ctx.pool, ctx.fresh, stage)
+        enc = encode(ctx.pc[:ob.npc], ob.hints, ob.goal, ctx.pool, ctx.fresh, stage, extra)
         last = stage == 3 or not enc.weakened
         enc.assertions = enc.assertions + seq_axioms(enc.assertions)
+        if stage == 0 and enc.weakened:
+            # E-matching on nth: the positions at which the path / the sequence axioms look into sequences are the
+            # positions at which the ∀-facts about those sequences are needed
+            known = {t.get_id() for t in ctx.pool}
+            extra = [t for t in nth_indices(enc.assertions) if t.get_id() not in known][:24]
         s, r, dt = check_z3(enc.assertions, z3_timeout_ms if last else max(2000, z3_timeout_ms // 4))
+        if os.environ.get('PYVC_TRACE'):
+            print('      [solve] %s stage %d -> %s in %.1fs (%d assertions)' % (ob.name, stage, r, dt, len(enc.assertions)), flush=True)
         if r == z3.unsat or last:
             break
     ob.solver = 'z3'
